@@ -213,6 +213,65 @@ func probeBlock(r *RNG, m *CfgModel) string {
 	return sb.String()
 }
 
+// unionCommonPrograms enumerates every ordered pair of value classes and every
+// method name both declare: the call goes through a union receiver.
+func unionCommonPrograms(r *RNG, m *CfgModel) []string {
+	classes := []string{"Integer", "String", "Float", "Symbol", "NilClass", "Bool", "Array", "Hash", "Range"}
+	var stmts []string
+	n := 0
+	for _, c1 := range classes {
+		for _, c2 := range classes {
+			if c1 == c2 {
+				continue
+			}
+			m1, m2 := m.Classes["Builtin::"+c1], m.Classes["Builtin::"+c2]
+			if m1 == nil || m2 == nil {
+				continue
+			}
+			var names []string
+			for nm := range m1.Instance {
+				if _, ok := m2.Instance[nm]; ok {
+					names = append(names, nm)
+				}
+			}
+			sort.Strings(names)
+			for _, nm := range names {
+				mm := m1.Instance[nm][0]
+				var args []string
+				for _, p := range mm.Params {
+					if p.Key != "" || p.Default || p.Rest {
+						break
+					}
+					args = append(args, literalFor(p.Type, r))
+				}
+				n++
+				recv := fmt.Sprintf("uc%d", n)
+				decl := fmt.Sprintf("%s = flag ? %s : %s", recv, Pick(r, valueReceivers[c1]), Pick(r, valueReceivers[c2]))
+				call := recv + "." + nm
+				isOp := !regexp.MustCompile(`^[a-z_]`).MatchString(nm)
+				switch {
+				case isOp && len(args) == 1 && nm != "[]" && nm != "[]=":
+					call = recv + " " + nm + " " + args[0]
+				case isOp:
+					continue
+				case len(args) > 0:
+					call += "(" + strings.Join(args, ", ") + ")"
+				}
+				stmts = append(stmts, decl+"\n"+fmt.Sprintf("rc%d = %s", n, call))
+			}
+		}
+	}
+	var progs []string
+	for i := 0; i < len(stmts); i += 8 {
+		j := i + 8
+		if j > len(stmts) {
+			j = len(stmts)
+		}
+		progs = append(progs, "flag = true\n"+strings.Join(stmts[i:j], "\n")+"\n")
+	}
+	return progs
+}
+
 func reopensBuiltin(src string, m *CfgModel) bool {
 	for _, mm := range classNameRe.FindAllStringSubmatch(src, -1) {
 		if m.Names[mm[1]] {
@@ -339,6 +398,12 @@ func init() {
 					tc.Probe = probeBlock(r, model)
 				}
 				jobs = append(jobs, tc)
+			}
+			ucp := unionCommonPrograms(r, model)
+			c.Extra("union_common_method_programs", len(ucp))
+			for i, src := range ucp {
+				_ = i
+				jobs = append(jobs, &tableCase{Exec: srcExec(src), Origin: "union-common-methods", Probe: probeBlock(r, model)})
 			}
 			c.Extra("programs", len(jobs))
 			c.Eng.Map(len(jobs), func(s *Slot, i int) {
